@@ -110,8 +110,8 @@ theorem C17_gen : Gen.UndefinedVendorID = UndefinedVendorID ∧ Gen.dictLoadOrde
 /-- non-vacuity: two files; the second redefines code 1 for application 9 under another vendor -/
 example :
     let av : List (Nat × Nat) := [(5, 16), (6, 15)]
-    let f1 : FileRow := [(0, 0, [], [(257, 1, 2, 3)], [(10, 1, 0, true, 5)]), (9, 0, [], [], [(11, 1, 77, false, 5)])]
-    let f2 : FileRow := [(9, 0, [], [], [(12, 1, 78, false, 6)])]
+    let f1 : FileRow := [(0, 0, [], [(257, 1, 2, 3)], [(10, 1, 0, true, 5, 0)]), (9, 0, [], [], [(11, 1, 77, false, 5, 0)])]
+    let f2 : FileRow := [(9, 0, [], [], [(12, 1, 78, false, 6, 2)])]
     let p := Parser.loadAll av [f1, f2]
     (p.findCode [] 3 9 1 77).map (·.name) = some 11 ∧ (p.findCode [] 3 9 1 UndefinedVendorID).map (·.name) = some 12 ∧
     (p.findCode [] 3 9 1 5).map (·.name) = none ∧ (p.findCode [] 3 9 1 0).map (·.name) = some 10 := by
